@@ -123,7 +123,10 @@ def nontrivial(ops):
 
 def history_sig(job, upto=None):
     ops = job['ops'] if upto is None else job['ops'][:upto]
-    return {'lk': job['lk'], 'disk0': job['disk0'], 'layout': job['layout'], 'ops': ops}
+    sig = {'lk': job['lk'], 'disk0': job['disk0'], 'layout': job['layout'], 'ops': ops}
+    if job.get('back'):
+        sig['back'] = True
+    return sig
 
 
 def run(tier, replay=None):
@@ -182,6 +185,16 @@ def run(tier, replay=None):
         simfiles = sorted(os.path.join(simdir, f) for f in os.listdir(simdir))
         jobs += jobs_from_sim(simfiles, rng)
         shutil.rmtree(simdir, ignore_errors=True)
+        # import cycles (md star-imports mb): outside the mechanism model (no expectation, no drift), judged by CacheTrace.tla only
+        cyc = []
+        for j in jobs:
+            if 'star' in j['lk'] and rng.random() < 0.25:
+                j2 = dict(j)
+                j2['back'] = True
+                j2.pop('expect', None)
+                cyc.append(j2)
+        jobs += cyc
+        ck.extra['histories_with_import_cycle'] = len(cyc)
         for i, j in enumerate(jobs):
             j['id'] = i
         results = run_workers(jobs, wd)
